@@ -3,6 +3,7 @@ package main
 import (
 	"fmt"
 	"go/token"
+	"go/types"
 	"sort"
 	"strings"
 
@@ -284,4 +285,108 @@ func (v *verifier) globalWriteScan() []*Obligation {
 		out = append(out, &Obligation{Name: "structural/no-global-writes[" + sp.Pkg.Name() + "]", Fn: sp.Pkg.Name(), Kind: "structural", Goal: goal, Src: src, Props: []string{"C13"}, tr: emptyTrans(v)})
 	}
 	return out
+}
+
+// builtinFieldScan: the specification treats `builtinFunctions` of every evaluation context as the package table
+// (builtinMap).  That is a representation invariant of exprContext, discharged structurally: every exprContext that
+// is built gets the field from the package variable exec.builtinFunctions, and nothing else ever writes the field.
+func (v *verifier) builtinFieldScan() []*Obligation {
+	sp := v.spkgs[xselPath+"/exec"]
+	if sp == nil {
+		return nil
+	}
+	var bad []string
+	isCtx := func(t types.Type) bool {
+		n, ok := t.(*types.Named)
+		return ok && n.Obj().Name() == "exprContext" && n.Obj().Pkg() == sp.Pkg
+	}
+	fieldIdx := -1
+	if tn := sp.Type("exprContext"); tn != nil {
+		if st, ok := tn.Type().Underlying().(*types.Struct); ok {
+			for i := 0; i < st.NumFields(); i++ {
+				if st.Field(i).Name() == "builtinFunctions" {
+					fieldIdx = i
+				}
+			}
+		}
+	}
+	if fieldIdx < 0 {
+		bad = append(bad, "exprContext has no field builtinFunctions")
+	}
+	fromTable := func(val ssa.Value) bool {
+		u, ok := val.(*ssa.UnOp)
+		if !ok {
+			return false
+		}
+		g, ok := u.X.(*ssa.Global)
+		return ok && g.Name() == "builtinFunctions" && g.Pkg == sp
+	}
+	var scan func(fn *ssa.Function)
+	scan = func(fn *ssa.Function) {
+		for _, b := range fn.Blocks {
+			for _, in := range b.Instrs {
+				switch x := in.(type) {
+				case *ssa.FieldAddr:
+					pt, ok := x.X.Type().Underlying().(*types.Pointer)
+					if !ok || !isCtx(pt.Elem()) || x.Field != fieldIdx {
+						continue
+					}
+					for _, r := range *x.Referrers() {
+						switch r := r.(type) {
+						case *ssa.UnOp, *ssa.DebugRef:
+						case *ssa.Store:
+							if r.Addr != ssa.Value(x) || !fromTable(r.Val) {
+								bad = append(bad, fmt.Sprintf("%s stores something other than the package table into exprContext.builtinFunctions", fnKey(fn)))
+							}
+						default:
+							bad = append(bad, fmt.Sprintf("%s lets the address of exprContext.builtinFunctions escape", fnKey(fn)))
+						}
+					}
+				case *ssa.Alloc:
+					pt, ok := x.Type().Underlying().(*types.Pointer)
+					if !ok || !isCtx(pt.Elem()) {
+						continue
+					}
+					okInit := false
+					for _, r := range *x.Referrers() {
+						switch r := r.(type) {
+						case *ssa.FieldAddr:
+							if r.Field == fieldIdx {
+								for _, rr := range *r.Referrers() {
+									if st, ok := rr.(*ssa.Store); ok && fromTable(st.Val) {
+										okInit = true
+									}
+								}
+							}
+						case *ssa.Store:
+							// whole-struct store of a value produced by a constructor call
+							if r.Addr == ssa.Value(x) {
+								if c, ok := r.Val.(*ssa.Call); ok && c.Common().StaticCallee() != nil && c.Common().StaticCallee().Name() == "copy" {
+									okInit = true
+								}
+							}
+						}
+					}
+					if !okInit {
+						bad = append(bad, fmt.Sprintf("%s builds an exprContext without the package builtin table", fnKey(fn)))
+					}
+				}
+			}
+		}
+		for _, an := range fn.AnonFuncs {
+			scan(an)
+		}
+	}
+	for _, fn := range v.funcs {
+		if fn.Pkg == sp && fn.Parent() == nil {
+			scan(fn)
+		}
+	}
+	sort.Strings(bad)
+	goal, src := "true", "every exprContext carries the package table exec.builtinFunctions in its builtinFunctions field (constructors store it, nothing else writes it)"
+	if len(bad) > 0 {
+		goal = "false"
+		src += ": " + strings.Join(bad, "; ")
+	}
+	return []*Obligation{{Name: "exec.exprContext/builtin-table-field", Fn: "exec.exprContext", Kind: "structural", Goal: goal, Src: src, Props: []string{"C11", "C08"}, tr: emptyTrans(v)}}
 }
